@@ -158,6 +158,12 @@ class Gen(object):
                 if rng.random() < 0.6:
                     k["password"] = gen_text(rng, rng.randint(0, 6))
         cid = gen_text(rng, rng.randint(1, 8), alphabet=["c", "l", "1", "é", "-"])
+        if rng.random() < 0.08:
+            # identifiers at the MQTT 3.1 limit of 23 characters - which is not 23 bytes
+            cid = rng.choice(["x" * 23, "é" * 23, "€" * 12, "€" * 23, "😀" * 6, "ü" * 12, "😀" * 23, "c" * 22 + "é"])
+        if rng.random() < 0.06:
+            # a flag is a flag by its truth value (int() of a configuration entry, say)
+            k["cleanStart"] = 1 if clean else 0
         # leave arguments at their documented defaults now and then
         if k["keepalive"] == 0 and rng.random() < 0.5:
             del k["keepalive"]
@@ -223,6 +229,11 @@ class Gen(object):
         if cfg["faults"]["reentrant"] and rng.random() < (0.3 if self.fam == "ids" else 0.15) and qos > 0:
             if rng.random() < (0.5 if self.fam == "ids" else 0.25):
                 st["then"] = [self.reaction(addr, "disconnect", "ok")]
+            elif rng.random() < 0.3:
+                # whatever the application does when a publish fails (the failure may come from
+                # another connection to the same address than the one it acts on)
+                st["then"] = [self.reaction(addr, rng.choice(["disconnect", "disconnect", "subscribe", "unsubscribe", "connect"]),
+                                            rng.choice(["err", "err", "any"]))]
             else:
                 st["then"] = [{"op": "app.call", "addr": addr, "m": "publish",
                                "k": {"topic": gen_topic(rng), "message": "re", "qos": rng.randint(0, 2)},
@@ -247,7 +258,7 @@ class Gen(object):
             # the application reacts to the outcome from inside the callback
             nxt = rng.choice(["subscribe", "subscribe", "unsubscribe", "publish", "disconnect"])
             if nxt == "disconnect":
-                st["then"] = [self.reaction(addr, "disconnect", "ok")]
+                st["then"] = [self.reaction(addr, "disconnect", rng.choice(["ok", "ok", "err", "any"]))]
             if nxt == "subscribe":
                 st["then"] = [{"op": "app.call", "addr": addr, "m": "subscribe", "a": [gen_topic(rng, True), rng.randint(0, 2)],
                                "when": rng.choice(["ok", "ok", "any"])}]
@@ -405,7 +416,8 @@ class Gen(object):
                 acts.append(("raw", 1.5))
             if fam == "ids" and getattr(self, "_placed_c", 0) < 2:
                 s_ = L.session(addr)
-                pend = sorted(r.msgId for r in s_.reqs if r.pending and isinstance(r.msgId, int))
+                pend = sorted(r.msgId for a_ in sorted(L.sess) for r in L.sess[a_].reqs
+                              if r.pending and isinstance(r.msgId, int))
                 if pend and rng.random() < 0.5:
                     self._placed_c = getattr(self, "_placed_c", 0) + 1
                     tgt = rng.choice(pend)
@@ -519,7 +531,13 @@ class Gen(object):
             return {"op": "sim.mutate", "i": rng.randint(0, 2), "n": rng.choice([1, 5, 30])}
         if fam == "ids" and not getattr(self, "_placed", False) and any(r.pending for r in s.reqs) and rng.random() < 0.3:
             self._placed = True
-            pend = sorted(r.msgId for r in s.reqs if r.pending and isinstance(r.msgId, int))
+            pend = sorted(r.msgId for a_ in sorted(L.sess) for r in L.sess[a_].reqs
+                          if r.pending and isinstance(r.msgId, int))
+            held = sorted(r.msgId for a_ in sorted(L.sess) for r in L.sess[a_].reqs
+                          if r.pending and isinstance(r.msgId, int) and not r.tx)
+            if held and rng.random() < 0.5:
+                # ... an identifier that so far only sits in a queue of held-back messages
+                pend = held
             if pend and rng.random() < 0.5:
                 # the counter as it stands one full cycle later, right before an identifier still in use
                 tgt = rng.choice(pend)
